@@ -92,9 +92,10 @@ def floatSpec? : Sx → Option FloatSpec
           ← dim? mn, ← dim? mx, ← mc.rat?, ← xc.rat?, ← hw.rat?, ← hn.rat?⟩
   | _ => none
 
-/-- `(w0 w h (<abox>…))` -/
+/-- `(w0 w h (<abox>…) <inline-block?>)` -/
 def lineSpec? : Sx → Option LineSpec
-  | .list [w0, w, h, .list fs] => do pure ⟨← w0.rat?, ← w.rat?, ← h.rat?, ← allSome abox? fs⟩
+  | .list [w0, w, h, .list fs, ib] => do
+    pure ⟨← w0.rat?, ← w.rat?, ← h.rat?, ← allSome abox? fs, ← ib.bool?⟩
   | _ => none
 
 def align? : Sx → Option Align
@@ -176,9 +177,11 @@ def handle (cmd : String) (args : List Sx) : Option String :=
     pure (match checkEvents [] 0 evs with
       | none => "ok"
       | some i => "fail " ++ toString i)
-  | "floatwidth", [mn, mx, mc, xc, cbw] => do
+  | "floatwidth", [w, mn, mx, mc, xc, cbw, .list sp] => do
+    -- `float_width(box, context, containing_block)`: `sp` = margin-left/right, padding-left/right, border-left/right
     let mx ← (match mx with | .atom "inf" => some none | x => x.rat?.map some)
-    pure (showRat (floatWidthAuto (← mn.rat?) mx (← mc.rat?) (← xc.rat?) (← cbw.rat?)))
+    let sp ← allSome Sx.rat? sp
+    pure (showRat (floatWidth (← w.len?) (← mn.rat?) mx (← mc.rat?) (← xc.rat?) ((← cbw.rat?) - sp.foldl (· + ·) 0)))
   | "flow", [cb, y0, .list items] => do
     let cb ← cb? cb
     let y0 ← y0.rat?
